@@ -10,7 +10,7 @@ def plan(tier):
     H = dict(timeout=3400, est_gb=10)
     qs = [
         Q(P, 2, ['****']),                                # reversible toggle a/-a (default 1), toggle b without letter
-        Q(P, 2, ['--no-?']), Q(P, 2, ['--no-a', '***']), Q(P, 2, ['--a', '***']), Q(P, 2, ['-a', '--b', '--no-?'], wit=(W_ERR,)),
+        Q(P, 2, ['--no-?']), Q(P, 2, ['--no-a**'], wit=(W_OK, W_ERR)), Q(P, 2, ['--no-a', '***']), Q(P, 2, ['--a', '***']), Q(P, 2, ['-a', '--b', '--no-?'], wit=(W_ERR,)),
         Q(P, 1, ['-****']),                               # counts across bundles of x and y
         Q(P, 1, ['-x', '--a', '-**']),                    # mixed long/short/bundled spellings
         Q(P, 12, ['****'], wit=(W_OK, W_ERR)),            # toggle with default 2
